@@ -2,7 +2,7 @@
    point are exact.  Theorems only; proofs live in the other files of C04/. *)
 From Coq Require Import ZArith List Bool.
 Import ListNotations.
-From KD Require Import C04.Model C04.Spec C04.Lists C04.Arith C04.Proofs C04.Corollaries C04.Batches C04.Bounds C04.Example.
+From KD Require Import C04.Model C04.Spec C04.Lists C04.Arith C04.Proofs C04.Corollaries C04.Batches C04.Bounds C04.Order C04.Example.
 Open Scope Z_scope.
 
 (* The model of _training_loop, started at any epoch boundary (with the side
@@ -99,6 +99,19 @@ Theorem c04_yield_bound : forall c mi, WF c mi -> forall n e0 pn tr, length pn =
 Proof. exact yield_bound. Qed.
 Print Assumptions c04_yield_bound.
 
+(* "epoch e announced via set_epoch BEFORE it starts": the calls the main
+   sampler object receives during a run started at epoch e0 (0, or the
+   checkpoint of a resume) are exactly set_epoch(e0), iter(), set_epoch(e0+1),
+   iter(), ... - each epoch's announcement precedes the start (the call of
+   iter(main_sampler)) of that epoch's iteration, the first epoch included, and
+   the iterations consumed are those of e0, e0+1, ...  A sampler that fixes its
+   order eagerly in __iter__ therefore sees the same epoch as a lazy generator *)
+Theorem c04_set_epoch_precedes_iter_start : forall c mi, WF c mi -> forall n e0 pn tr,
+  length pn = length (sides c) -> run c mi n (start_state c e0 pn) = Some tr ->
+  exists k, ctl tr = ctl_seq e0 (S k) /\ iter_labels tr = zseq e0 (S k).
+Proof. exact set_epoch_precedes_iter_start. Qed.
+Print Assumptions c04_set_epoch_precedes_iter_start.
+
 (* always on a batch boundary: the batch sampler's trailing assertion cannot fire *)
 Theorem c04_ends_on_batch_boundary : forall c mi, WF c mi -> forall n e pn tr, length pn = length (sides c) ->
   run c mi n (start_state c e pn) = Some tr -> snd (batches (render tr)) = true.
@@ -141,5 +154,8 @@ Proof.
   - exact (proj1 (proj2 (ctor_ok _ _ _ _ _ ex_ctor))).
 Qed.
 Example c04_example_run :
-  option_map (fun l => length l) (run ex_cfg ex_iter 4 (start_state ex_cfg 0 [0; 0]%nat)) = Some 40%nat.
+  option_map (fun l => length l) (run ex_cfg ex_iter 4 (start_state ex_cfg 0 [0; 0]%nat)) = Some 42%nat.
+Proof. vm_compute. reflexivity. Qed.
+Example c04_example_order :
+  option_map ctl (run ex_cfg ex_iter 4 (start_state ex_cfg 0 [0; 0]%nat)) = Some (ctl_seq 0 2).
 Proof. vm_compute. reflexivity. Qed.
